@@ -1,6 +1,7 @@
 import BoxoModel.C45.Model
 /-! Line-protocol driver for C45 (protocol: see harness/cmd/c45/main.go).  The model runs the repaired
-code (`atomic`, `fallbackOlder`); set `C45_UNFIXED=1` to run the model of the code before the fix. -/
+code (`atomic`, `fallbackOlder`); `C45_UNFIXED=1` runs the model of the code before the first fix, `C45_UNFIXED2=1` before the second and third
+(cleanup by name only, `.last-refresh` required). -/
 open FS C45
 
 def hexVal (c : Char) : Nat :=
@@ -26,9 +27,11 @@ structure DSt where
   cacheSize : Nat := 3
   tmpCtr : Nat := 0
   unfixed : Bool := false
+  unfixed2 : Bool := false
 
 def DSt.params (s : DSt) : Params :=
-  { parse := fun b => (s.docs.find? (·.2 == b)).map (·.1), atomic := !s.unfixed, fallbackOlder := !s.unfixed }
+  { parse := fun b => (s.docs.find? (·.2 == b)).map (·.1), timeParses := fun b => b.length == 20,
+    atomic := !s.unfixed, fallbackOlder := !s.unfixed, validCleanup := !s.unfixed2, tolerantRefresh := !s.unfixed2 }
 
 def verdict (s : DSt) (w : World) : String :=
   match getCachedConfig s.params w cdir with
@@ -99,7 +102,7 @@ def runUpdate (s : DSt) (t id : Nat) (etag lm : List UInt8) : DSt × Tr :=
 
 def step (s : DSt) (line : String) : DSt × String :=
   match (line.trimAscii.toString.splitOn " ").filter (· ≠ "") with
-  | ["case", n] => ({ unfixed := s.unfixed }, s!"case {n}")
+  | ["case", n] => ({ unfixed := s.unfixed, unfixed2 := s.unfixed2 }, s!"case {n}")
   | ["end"] => (s, "end")
   | ["cfg", k] => ({ s with cacheSize := k.toNat?.getD 3 }, "ok")
   | ["doc", id, h] => ({ s with docs := s.docs ++ [(id.toNat?.getD 0, unhex h)] }, "ok")
@@ -117,11 +120,12 @@ def step (s : DSt) (line : String) : DSt × String :=
     let (s', tr) := runUpdate s (t.toNat?.getD 0) (id.toNat?.getD 0) (unhex e) (unhex l)
     let sts := distinctStates s.w tr.visited
     let vs := sts.map (verdict s')
+    let offDiff := (sts.filter fun w => getCachedOrRefreshOffline s'.params w cdir != getCachedConfig s'.params w cdir).length
     let wEnd := match k.toInt? with
       | some k => if k ≥ 0 && !sts.isEmpty then sts.getD (k.toNat % sts.length) tr.last else tr.last
       | none => tr.last
     let s' := { s' with w := wEnd }
-    (s', s!"ops={showLog tr.log} states={rle vs} | {listing s' s'.w} get={verdict s' s'.w}")
+    (s', s!"ops={showLog tr.log} states={rle vs} offline-differs={offDiff} | {listing s' s'.w} get={verdict s' s'.w}")
   | _ => (s, "bad-op")
 
 partial def loop (h : IO.FS.Stream) (out : IO.FS.Stream) (s : DSt) : IO Unit := do
@@ -134,4 +138,5 @@ partial def loop (h : IO.FS.Stream) (out : IO.FS.Stream) (s : DSt) : IO Unit := 
 def main : IO Unit := do
   let out ← IO.getStdout
   let unfixed := (← IO.getEnv "C45_UNFIXED").isSome
-  loop (← IO.getStdin) out { unfixed := unfixed }
+  let unfixed2 := (← IO.getEnv "C45_UNFIXED2").isSome
+  loop (← IO.getStdin) out { unfixed := unfixed, unfixed2 := unfixed2 }
